@@ -126,7 +126,7 @@ def gen_prog(rng, *, dyadic=True, nmax=8, depth=3, limit_p=0.4, group_p=0.3, gro
         else:
             limit = rng.choice([0.35, 1.0, 2.05, 3.3, 7.7])
     return {"tock": tock, "tyme": start, "limit": limit, "runner": runner, "doers": doers, "pool": [],
-            "dyadic": dyadic}
+            "dyadic": dyadic, "do_args": rng.random() < 0.3}
 
 
 def shape_sig(nodes):
